@@ -48,7 +48,8 @@ def strings(alpha, n, first=None):
 
 
 GOOD = [
-    [b'--BND', b'\r\n', b'Content-Disposition', b':', b' form-data', b';', b' name', b'=', b'"', b'a', b'"', b'\r\n', b'\r\n', b'value', b'\r\n',
+    [b'--BND', b'\r\n', b'Content-Disposition', b':', b' form-data', b';', b' name', b'=', b'"', b'a', b'"', b'\r\n',
+     b'Content-Type', b':', b' text/plain', b';', b' charset', b'=', b'utf-8', b'\r\n', b'\r\n', b'value', b'\r\n',
      b'--BND', b'--', b'\r\n'],
     [b'--BND', b'\r\n', b'Content-Disposition', b':', b' form-data', b';', b' name', b'=', b'"', b'f', b'"', b';', b' filename', b'=', b'"', b'n.bin', b'"',
      b'\r\n', b'Content-Type', b':', b' text/plain', b'\r\n', b'\r\n', b'file\r\ndata', b'\r\n', b'--BND', b'\r\n',
@@ -103,7 +104,12 @@ FLOORS = {'threaded_calls': 500, 'calls': 20000, 'client_errors': 5000, 'deliver
 
 
 def make_app(om, M):
-    app = om.Ombott({'max_memfile_size': M})
+    if M == 64:
+        # configured after construction through setup() (the other applications get their configuration as a constructor argument)
+        app = om.Ombott()
+        app.setup({'max_memfile_size': M})
+    else:
+        app = om.Ombott({'max_memfile_size': M})
     seen = {}
 
     def h(acc):
